@@ -152,9 +152,11 @@ class SharedMemoryFileBufferedCollection(FileBufferedCollection):
                         # metadata after the current flush. An entry that was
                         # not written (it was only read, or its flush failed)
                         # must keep describing the file its contents came from.
+                        # The size was decremented above, so the entry must be
+                        # marked unmodified even if reading the metadata fails.
+                        cached_data["modified"] = False
                         if written:
                             cached_data["metadata"] = self._get_file_metadata()
-                        cached_data["modified"] = False
         else:
             # If this object is still buffered _and_ this wasn't a force flush,
             # that implies a nesting of buffered contexts in which another
